@@ -194,19 +194,24 @@ func (c *channel) Trigger(event Event) {
 // Close through the Pipeline
 func (c *channel) Close(err error) {
 	if atomic.CompareAndSwapInt32(&c.closed, 0, 1) {
+		verifAt(vpCloseElected, c)
 
 		// wait async send finished.
 		if nil != c.writeQueue {
 			var maxWaitNum int
 			for (c.untilWrite || maxWaitNum < 10) && atomic.LoadInt32(&c.running) != idle {
+				verifAt(vpClosePoll, c)
 				maxWaitNum++
 				time.Sleep(time.Millisecond * 100)
 			}
 		}
 
+		verifAt(vpCloseWaited, c)
 		c.closeErr = err
 		c.transport.Close()
+		verifAt(vpCloseTransportClosed, c)
 		c.cancel()
+		verifAt(vpCloseCancelled, c)
 
 		c.invokeMethod(func() {
 			c.pipeline.FireChannelInactive(err)
@@ -397,8 +402,10 @@ func (c *channel) asyncWrite(ctx context.Context, p []byte, clone bool) (int64, 
 		}
 	}
 
+	verifAt(vpWriteEnqueued, c)
 	// try send
 	if atomic.CompareAndSwapInt32(&c.running, idle, running) {
+		verifAt(vpWriteAcquired, c)
 		c.executor.Exec(c.writeOnce)
 	}
 	return int64(dataLen), nil
@@ -446,8 +453,10 @@ func (c *channel) asyncWritev(ctx context.Context, p [][]byte) (int64, error) {
 		}
 	}
 
+	verifAt(vpWriteEnqueued, c)
 	// try send
 	if atomic.CompareAndSwapInt32(&c.running, idle, running) {
+		verifAt(vpWriteAcquired, c)
 		c.executor.Exec(c.writeOnce)
 	}
 	return dataLen, nil
@@ -533,6 +542,7 @@ func (c *channel) readLoop(done func()) {
 	func() {
 		defer done()
 		c.invokeMethod(c.pipeline.FireChannelActive)
+		verifAt(vpReadActiveDone, c)
 	}()
 
 	for {
@@ -559,6 +569,7 @@ func (c *channel) writeOnce() {
 
 	for {
 		// reuse buffer.
+		verifAt(vpSendLoop, c)
 		sendBuffers := c.writeBuffers[:0]
 		recycleBuffers := c.recycleBuffers[:0]
 
@@ -578,9 +589,11 @@ func (c *channel) writeOnce() {
 			break
 		}
 
+		verifAt(vpSendBatched, c)
 		if len(sendBuffers) > 0 {
 
 			utils.AssertLong(c.transport.Writev(sendBuffers))
+			verifAt(vpSendWritten, c)
 
 			// clear buffer ref
 			for index, buf := range recycleBuffers {
@@ -592,6 +605,7 @@ func (c *channel) writeOnce() {
 				recycleBuffers[index] = nil
 			}
 
+			verifAt(vpSendRecycled, c)
 			// continue to send remain packets
 			if len(c.writeQueue) > 0 {
 				continue
@@ -600,9 +614,11 @@ func (c *channel) writeOnce() {
 
 		// flush transport buffer
 		utils.Assert(c.transport.Flush())
+		verifAt(vpSendFlushed, c)
 
 		// double check
 		atomic.StoreInt32(&c.running, idle)
+		verifAt(vpSendReleased, c)
 		if size := len(c.writeQueue); size > 0 {
 			if atomic.CompareAndSwapInt32(&c.running, idle, running) {
 				continue
